@@ -62,6 +62,7 @@ type c07Obs struct {
 	SecondReturn bool     `json:"second_returned"`
 	Trace        []string `json:"trace,omitempty"`
 	Infeasible   bool     `json:"infeasible,omitempty"`
+	SetupFailed  string   `json:"setup_failed,omitempty"`
 }
 
 func genC07(r *sim.Rng) *c07Case {
@@ -173,6 +174,15 @@ func runC07Case(id string, c *c07Case) {
 	case killed:
 		cs.Oracle = "child did not finish within 8 s (Close or a follow-up blocked forever)"
 		cs.Sig = "C07:hang:" + c.Driver + ":" + c.State
+	case got && o.SetupFailed != "":
+		// the connection of the scenario could not be set up: Close was never called, nothing was
+		// observed about the property (which speaks of a successfully opened connection).  The
+		// checker replays such a case alone; one that still cannot be set up is reported as a
+		// broken correspondence (the scenario is no longer exercised), never as a failing input.
+		cs.Oracle = "harness: " + o.SetupFailed
+		cs.Sig = "C07:setup-failed"
+		cs.HypOK = false
+		cs.Nontrivial = false
 	case !got:
 		msg := lastLines(stderr, 6)
 		cs.Oracle = "process died: " + msg
@@ -217,6 +227,10 @@ func runC07Case(id string, c *c07Case) {
 	if c.Driver == "generic-standard" || c.Driver == "generic-telnet" {
 		// a real transport: the direct oracle only (the protocol model is about the channel and the
 		// drivers over a transport whose Close closes it)
+		emit(cs)
+		return
+	}
+	if got && o.SetupFailed != "" {
 		emit(cs)
 		return
 	}
@@ -409,6 +423,17 @@ func (g *gate) release() {
 	}
 }
 
+// c07SetupFailed: the connection the scenario needs could not be set up (the property is about Close
+// after a successful open; nothing was closed).  The stage and the error are reported for the log.
+func c07SetupFailed(stage string, err error) {
+	msg := "setup failed at " + stage
+	if err != nil {
+		msg += ": " + err.Error()
+	}
+	b, _ := json.Marshal(c07Obs{SetupFailed: msg})
+	fmt.Println(string(b))
+}
+
 func c07Child() {
 	var c c07Case
 	if json.Unmarshal([]byte(os.Getenv("VERIF_C07_CHILD")), &c) != nil {
@@ -451,8 +476,11 @@ func c07Child() {
 			ncOpts = append(ncOpts, options.WithLogger(li))
 		}
 		d, err := netconf.NewDriver("sim", ncOpts...)
-		if err != nil || d.Open() != nil {
-			fmt.Println(`{"panicked":"setup failed"}`)
+		if err == nil {
+			err = d.Open()
+		}
+		if err != nil {
+			c07SetupFailed("open", err)
 			return
 		}
 		closer = d.Close
@@ -465,22 +493,31 @@ func c07Child() {
 			}
 			return nd.Channel.WriteAndReturn([]byte("exit"), false)
 		}))
-		if err != nil || d.Open() != nil {
-			fmt.Println(`{"panicked":"setup failed"}`)
+		if err == nil {
+			err = d.Open()
+		}
+		if err != nil {
+			c07SetupFailed("open", err)
 			return
 		}
 		closer = d.Close
 	case "network":
 		d, err := newNetworkSimple(tr, delay)
-		if err != nil || d.Open() != nil {
-			fmt.Println(`{"panicked":"setup failed"}`)
+		if err == nil {
+			err = d.Open()
+		}
+		if err != nil {
+			c07SetupFailed("open", err)
 			return
 		}
 		closer = d.Close
 	default:
 		d, err := newGeneric(tr, options.WithReadDelay(delay), options.WithTimeoutOps(2*time.Second))
-		if err != nil || d.Open() != nil {
-			fmt.Println(`{"panicked":"setup failed"}`)
+		if err == nil {
+			err = d.Open()
+		}
+		if err != nil {
+			c07SetupFailed("open", err)
 			return
 		}
 		closer = d.Close
@@ -679,32 +716,49 @@ func c07ChildStandard(c *c07Case) {
 	delay := time.Duration(c.DelayUS) * time.Microsecond
 	var d *generic.Driver
 	var err error
+	var dbg []util.Option
+	var dbgMu sync.Mutex
+	var dbgLog []string
+	if os.Getenv("VERIF_C07_DEBUG") != "" {
+		t00 := time.Now()
+		li, _ := logging.NewInstance(logging.WithLevel("debug"), logging.WithLogger(func(a ...interface{}) {
+			dbgMu.Lock()
+			if len(dbgLog) < 3000 {
+				dbgLog = append(dbgLog, fmt.Sprintf("%8.3f %s", time.Since(t00).Seconds()*1000, fmt.Sprint(a...)))
+			}
+			dbgMu.Unlock()
+		}))
+		dbg = append(dbg, options.WithLogger(li))
+	}
 	var sp *c16SSHPeer
 	var tp *c16TCPPeer
 	var peerStopped chan struct{}
 	if c.Driver == "generic-telnet" {
 		tp, err = newC16TCPPeer(nil, &idleDev{hello: []byte("router#")})
 		if err != nil {
-			fmt.Println(`{"panicked":"setup failed"}`)
+			c07SetupFailed("peer", err)
 			return
 		}
 		peerStopped = tp.stopped
-		d, err = generic.NewDriver("127.0.0.1", options.WithPort(tp.Port()), options.WithTransportType("telnet"),
+		d, err = generic.NewDriver("127.0.0.1", append(dbg, options.WithPort(tp.Port()), options.WithTransportType("telnet"),
 			options.WithAuthBypass(), options.WithTimeoutSocket(400*time.Millisecond),
-			options.WithReadDelay(delay), options.WithTimeoutOps(2*time.Second))
+			options.WithReadDelay(delay), options.WithTimeoutOps(2*time.Second))...)
 	} else {
 		sp, err = newC16SSHPeer("none", nil, &idleDev{hello: []byte("router#")})
 		if err != nil {
-			fmt.Println(`{"panicked":"setup failed"}`)
+			c07SetupFailed("peer", err)
 			return
 		}
 		peerStopped = sp.stopped
-		d, err = generic.NewDriver("127.0.0.1", options.WithPort(sp.Port()), options.WithTransportType("standard"),
+		d, err = generic.NewDriver("127.0.0.1", append(dbg, options.WithPort(sp.Port()), options.WithTransportType("standard"),
 			options.WithAuthNoStrictKey(), options.WithAuthUsername(c16User), options.WithTimeoutSocket(3*time.Second),
-			options.WithReadDelay(delay), options.WithTimeoutOps(2*time.Second))
+			options.WithReadDelay(delay), options.WithTimeoutOps(2*time.Second))...)
 	}
-	if err != nil || d.Open() != nil {
-		fmt.Println(`{"panicked":"setup failed"}`)
+	if err == nil {
+		err = d.Open()
+	}
+	if err != nil {
+		c07SetupFailed("open", err)
 		return
 	}
 	// one connection only: the accept loop is over
@@ -714,7 +768,17 @@ func c07ChildStandard(c *c07Case) {
 		_ = tp.ln.Close()
 	}
 	if _, err := d.GetPrompt(); err != nil {
-		fmt.Println(`{"panicked":"setup failed"}`)
+		if os.Getenv("VERIF_C07_DEBUG") != "" {
+			buf := make([]byte, 1<<16)
+			fmt.Fprintln(os.Stderr, string(buf[:runtime.Stack(buf, true)]))
+			dbgMu.Lock()
+			fmt.Fprintln(os.Stderr, strings.Join(dbgLog, "\n"))
+			dbgMu.Unlock()
+			if sp != nil {
+				fmt.Fprintf(os.Stderr, "server received %q requests %v\n", sp.Received(), sp.Requests())
+			}
+		}
+		c07SetupFailed("prompt", err)
 		return
 	}
 	inflight := make(chan string, 1)
